@@ -91,7 +91,9 @@ VARIANTS += [
     ("C05-guard-eq", "C05", IV, "and _start.tzinfo is _end.tzinfo", "and _start.tzinfo == _end.tzinfo", "FLOW.guard"),
     ("C05-in-hours-round", "C05", DUR, "        return int(self.total_hours())", "        return round(self.total_hours())", "TRUNC.in"),
     ("C05-total-days-hour", "C05", DUR, "        return self.total_seconds() / SECONDS_PER_DAY", "        return self.total_seconds() / SECONDS_PER_HOUR", "UNITS.total"),
-    ("C05-swap-ge", "C05", IV, "        if absolute and start > end:\n            end, start = start, end\n\n        _start = start", "        if absolute and start < end:\n            end, start = start, end\n\n        _start = start", "FLOW.swap"),
+    ("C05-swap-ge", "C05", IV, "        if absolute and _is_after(start, end):\n            end, start = start, end\n\n        _start = start", "        if absolute and _is_after(end, start):\n            end, start = start, end\n\n        _start = start", "FLOW.swap"),
+    ("C05-native-order", "C05", IV, "        if absolute and _is_after(start, end):\n", "        if absolute and start > end:\n", "ORDER.instant"),
+    ("C05-init-native-order", "C05", IV, "        if _is_after(start, end):\n            self._invert = True", "        if start > end:\n            self._invert = True", "ORDER.instant"),
     ("C05-seconds-days", "C05", IV, "return super().__new__(cls, seconds=delta.total_seconds())", "return super().__new__(cls, seconds=delta.seconds)", "FLOW.duration"),
     ("C05-abs-false", "C05", IV, "return self.__class__(self.start, self.end, absolute=True)", "return self.__class__(self.start, self.end, absolute=False)", "ABS"),
     ("C05-naive-min-sec-swap", "C05", DT, "                    other.minute,\n                    other.second,\n                    other.microsecond,\n                )\n            else:\n                other = self.instance(other)\n\n        return other.diff(self, False)", "                    other.second,\n                    other.minute,\n                    other.microsecond,\n                )\n            else:\n                other = self.instance(other)\n\n        return other.diff(self, False)", "RECON.slot"),
